@@ -13,6 +13,11 @@ L_BIG = "P0.2 P1.2 P2.2 P0.2 P1.2 P2.2 F P0.2 P1.2 P2.2 F"
 # two overlapping level-0 tables sharing a key (recovery writes its table to level 0), nothing below
 L_OVL = "P0.1 P1.1 O P1.1 P3.1 O"
 L_OVL2 = "P1.1 P2.1 O P0.1 P1.1 O"
+# three level-0 tables forming an overlap chain A-C-F (A and F do not overlap directly), both age orders
+L_OVL3 = "P0.1 P1.1 O P1.1 P2.1 O P2.1 P3.1 O"
+L_OVL3b = "P2.1 P3.1 O P1.1 P2.1 O P0.1 P1.1 O"
+OVL_Q = ["B1~rwr@0/2^" + L_OVL, "B1~rwr@0/2^" + L_OVL2, "B1~rwr@0/1^" + L_OVL3, "B1~rwr@0/1^" + L_OVL3b]
+OVL_T = ["B1~rwr@0/3^" + L_OVL, "B1~rwr@0/3^" + L_OVL2, "B1~rwr@0/2^" + L_OVL3, "B1~rwr@0/2^" + L_OVL3b]
 # 6 keys; files g=[b..e] in level 2, x1=[a..k] in level 1, F=[c..k] in level 0, a snapshot pins the older version of k;
 # with 2200-byte tables a level-0 compaction cuts its outputs as [a..c] [d..k@new] [k@old]: one user key split over two files
 L_SPLIT = "P1.1 P4.1 F P0.2 P5.2 F S P2.2 P3.2 P5.2 F"
@@ -37,7 +42,7 @@ def c01_plan(tier):
     if tier == "quick":
         it = ["B1@0/4"] + ["B1,%s@0/2" % t for t in TOGGLES] + ["B2@0/2"]
         it += ["B1@2^" + L_DEEP, "B1,bloom=1,cache=1,mmap=0,snappy=1@2^" + L_DEEP, "B1@2^" + L_TOMB]
-        it += ["B1~rwr@0/2^" + L_OVL, "B1~rwr@0/2^" + L_OVL2, "B1~rwr@0/1^" + L_DEEP] + NOCASE_ITEMS + LONGMAN_ITEMS + [SPLIT_CFG + "@0/2^" + L_SPLIT]
+        it += OVL_Q + ["B1~rwr@0/1^" + L_DEEP] + NOCASE_ITEMS + LONGMAN_ITEMS + [SPLIT_CFG + "@0/2^" + L_SPLIT]
     else:
         it = ["B1@0/5"] + ["B1,%s@4/3" % t for t in TOGGLES] + ["B2@3/3", "B2,snappy=1,bloom=1@3/2"]
         # full cross product of the boolean toggles at depth 2 (no dedup)
@@ -50,7 +55,7 @@ def c01_plan(tier):
                 it.append("B1,%s@0/2" % ",".join(t))
         it += [NOCASE + "@4/3", NOCASE + "@2^P0.1 F P1.1 F P3.1 F P4.1 F", NOCASE + "@3^P0.1 F D1 F", NOCASE + "@3^P3.1 F P4.2 F D3"] + LONGMAN_ITEMS + ["B1,reuse=1,uni=2@2^" + L_LONGMAN]
         it += [SPLIT_CFG + "@0/3^" + L_SPLIT, SPLIT_CFG + "@0/2^" + L_SPLIT + " R0:5:5"]
-        it += ["B1~rwr@0/3^" + L_OVL, "B1~rwr@0/3^" + L_OVL2, "B1~rwr@0/2^" + L_DEEP, "B1,cmp=1~rwr@0/2^" + L_OVL, "B1~rwr@3/2"]
+        it += OVL_T + ["B1~rwr@0/2^" + L_DEEP, "B1,cmp=1~rwr@0/2^" + L_OVL, "B1~rwr@3/2"]
         for L in (L_DEEP, L_TOMB, L_SNAP, L_BIG):
             it += ["B1@3^" + L, "B1,bloom=1,cache=1,mmap=0,snappy=1@3^" + L, "B1,cmp=1@2^" + L]
     return plan(it)
@@ -291,8 +296,8 @@ ENGINES["fault"] = "E4: fault-site enumerator over the call log of the in-memory
 
 def c14_plan(tier):
     if tier == "quick":
-        return plan(["B1@4/3", "B1,snappy=1,bloom=1@0/2", "B1,cmp=1@0/2", NOCASE + "@0/2", "B2@0/2"] + LONGMAN_ITEMS + [SPLIT_CFG + "@0/2^" + L_SPLIT, "B1@2^" + L_DEEP, "B1@2^" + L_BIG, "B1@2^" + L_SNAP])
-    return plan(["B1@5/4", "B1,snappy=1,bloom=1@4/3", "B1,cmp=1@4/3", NOCASE + "@3/3", "B1,reuse=1@3/3", "B2@3/2", SPLIT_CFG + "@0/3^" + L_SPLIT, "B1@3^" + L_DEEP, "B1@3^" + L_BIG,
+        return plan(["B1@4/3", "B1,snappy=1,bloom=1@0/2", "B1,cmp=1@0/2", NOCASE + "@0/2", "B2@0/2"] + LONGMAN_ITEMS + [SPLIT_CFG + "@0/2^" + L_SPLIT, "B1@2^" + L_DEEP, "B1@2^" + L_BIG, "B1@2^" + L_SNAP] + OVL_Q)
+    return plan(OVL_T + ["B1@5/4", "B1,snappy=1,bloom=1@4/3", "B1,cmp=1@4/3", NOCASE + "@3/3", "B1,reuse=1@3/3", "B2@3/2", SPLIT_CFG + "@0/3^" + L_SPLIT, "B1@3^" + L_DEEP, "B1@3^" + L_BIG,
                  "B1@3^" + L_SNAP, "B1,cmp=1@3^" + L_DEEP, "B1,snappy=1,bloom=1@3^" + L_BIG])
 
 
@@ -373,3 +378,24 @@ PROPS["C13"]["rule"] += ("; concurrent stage: a writer fills and switches the me
                          "for every schedule within the bound, at every journal index (in particular right after every unlink issued by obsolete-file removal) the process-crash image must still "
                          "contain every acknowledged batch, i.e. no log or table holding data of an in-progress flush/compaction was removed")
 PROPS["C13"]["assumptions"] = PROPS["C13"]["assumptions"] + E1_ASSUME[:3]
+
+# fault-site stages for properties whose statement also covers the state after a failed system call
+# (the enumeration is C12's; only the oracle differs: --prop selects the property's own statement)
+FAULT_ASSUME = ["fault model of the fault stage: the k-th intercepted call fails once with an errno the call can return; a short write transfers 0/1/len-1 bytes and the next write fails"]
+PROPS["C04"]["stages"].append(dict(name="fault-atomicity", driver="fault", flavour="asan", args=["--prop", "C04"], weight=0.5,
+                                   quick=["--cfgs", "B1", "--len", "1", "--scripted", "1"],
+                                   thorough=["--cfgs", "B1;B1,reuse=1", "--len", "2", "--scripted", "1", "--wide", "1"]))
+PROPS["C04"]["rule"] += ("; fault stage: histories with batches whose log record spans three 32 KiB blocks (small updates before and after a 70 KB one) x every system call x errno/short write: "
+                         "reads during the faulted run and the contents after close+reopen and kill+reopen are the fold of SOME set of whole batches")
+PROPS["C04"]["assumptions"] = PROPS["C04"]["assumptions"] + FAULT_ASSUME
+PROPS["C13"]["stages"].append(dict(name="fault-files", driver="fault", flavour="asan", args=["--prop", "C13"], weight=0.5,
+                                   quick=["--cfgs", "B1", "--len", "2", "--scripted", "1"],
+                                   thorough=["--cfgs", "B1;B1,reuse=1", "--len", "3", "--scripted", "1", "--persistent", "1"]))
+PROPS["C13"]["rule"] += "; fault stage: after every operation of every faulted run (every system call x errno) every table of the current version still exists in the directory, and at the end of the run (kill point and after the clean close) every table named by the MANIFEST that CURRENT points to (decoded independently) exists"
+PROPS["C13"]["assumptions"] = PROPS["C13"]["assumptions"] + FAULT_ASSUME
+PROPS["C17"]["stages"].append(dict(name="fault-manifest", driver="fault", flavour="asan", args=["--prop", "C17"], weight=0.5,
+                                   quick=["--cfgs", "B1;B1,reuse=1", "--len", "2", "--scripted", "1"],
+                                   thorough=["--cfgs", "B1;B1,reuse=1", "--len", "3", "--scripted", "1"]))
+PROPS["C17"]["rule"] += ("; fault stage: for every failed or short write(2) and every failed rename(2) of every history, after every operation that returns OK the MANIFEST that CURRENT names "
+                         "(decoded independently) folds to exactly the file set the database reports")
+PROPS["C17"]["assumptions"] = PROPS["C17"]["assumptions"] + FAULT_ASSUME
